@@ -31,7 +31,7 @@ FLAG_NAMES = {
     18: "t_meshset_need", 19: "t_meshset_sub", 20: "t_updmesh_need", 21: "t_bcinit", 22: "t_dirichlet", 23: "t_lagrange",
     24: "t_newton_need", 25: "t_pf_need_d", 26: "t_pf_need_u", 27: "t_pf_setiter_d", 28: "t_pf_setiter_u",
     29: "t_pf_dmg_inval_u", 30: "t_pf_el_inval_d", 31: "t_csr_key_groups", 32: "t_csr_key_ndof", 33: "t_mass_key_group",
-    34: "t_model_cache_refresh"}
+    34: "t_model_cache_refresh", 35: "t_meshset_initsols"}
 
 KEYS = {
     1: "no-need-update:_Parameter.__set__", 2: "no-notify:_IModel.Need_Update", 3: "no-need-update:_Simu._Update(model)",
@@ -46,7 +46,8 @@ KEYS = {
     24: "no-need-update:Newton-iteration", 25: "pf-flag:Need_Update(damage)", 26: "pf-flag:Need_Update(displacement)",
     27: "pf-flag:Set_Iter(damage)", 28: "pf-flag:Set_Iter(displacement)", 29: "pf-flag:damage-solve-keeps-Ku",
     30: "pf-flag:elastic-solve-keeps-Kd", 31: "cache-key:csr-map-without-groups", 32: "cache-key:csr-map-without-Ndof",
-    33: "cache-key:mass-without-group", 34: "model-derived-cache-read-before-lazy-update"}
+    33: "cache-key:mass-without-group", 34: "model-derived-cache-read-before-lazy-update",
+    35: "solution-state-kept:simu.mesh-setter"}
 
 # ---- real-code replays of the model witnesses (same sequences as `witness` in C14_Cache.v) ------------
 NS = {"op": "newsim", "m": 0}
@@ -93,6 +94,15 @@ REAL_WITNESS = {
     32: ("Beam", [NS, {"op": "dirichlet", "i": 0, "where": "clamp", "values": [0.0, 0.0, 0.0]}, GK, {"op": "lagrange", "i": 0, "where": "corner"}]),
     33: ("HyperElastic", HYP_PRE + [NEWMESH, SOLVE, {"op": "setmesh", "i": 0, "m": 1}]),
 }
+SAME_NN = {"op": "newmesh", "nx": 2, "ny": 2, "lx": 2.0, "ly": 1.0}           # same node count / connectivity, other geometry
+SAME_NN_TRI = {"op": "newmesh", "nx": 2, "ny": 2, "lx": 1.0, "ly": 1.0, "elem": "TRI3"}  # same node count, other element type
+TH_PRE = [NS, {"op": "dirichlet", "i": 0, "where": "left", "values": [1.0]}, {"op": "algo", "i": 0, "kind": "parabolic", "dt": 0.05}]
+REAL_WITNESS[35] = [{"type": "Thermal", "ops": TH_PRE + [SOLVE, SOLVE, nm, {"op": "setmesh", "i": 0, "m": 1}]} for nm in (SAME_NN, SAME_NN_TRI)] + \
+                   [{"type": "Elastic", "ops": [NS, DIR2, LOAD, {"op": "algo", "i": 0, "kind": "hyperbolic", "dt": 0.05}, SOLVE, SOLVE, SAME_NN, {"op": "setmesh", "i": 0, "m": 1}]}]
+# a mesh notification arriving while the simulation is ALREADY flagged must still clear the simulation cache
+REAL_WITNESS[5] = [{"type": "HyperElastic", "ops": HYP_PRE + [SOLVE, mv("CoordSet")]},
+                   {"type": "HyperElastic", "ops": HYP_PRE + [SOLVE, {"op": "param", "name": "K", "value": 3.1e4}, mv("CoordSet")]},
+                   {"type": "HyperElastic", "ops": HYP_PRE + [SOLVE, {"op": "rho", "i": 0, "value": 650.0}, mv("CoordSet")]}]
 REAL_WITNESS[34] = [{"type": "PhaseField", "opts": {"split": sp},
                      "ops": PF_PRE + [SOLVE, {"op": "param", "sub": True, "name": "v", "value": 0.1}]} for sp in ("He", "Zhang", "Stress", "AnisotStress")]
 for _a, _b in ((2, 1), (3, 1), (6, 1), (14, 10), (15, 11), (16, 12), (17, 13), (26, 25), (28, 27)):
@@ -381,7 +391,10 @@ def gen_case(rng, typ, maxlen):
                     s["dir"] = False
         elif c == "setmesh":
             if nmesh < 4:
-                ops.append({"op": "newmesh", "nx": rng.choice([2, 3]), "ny": rng.choice([2, 3]), "lx": pv(0.8, 1.6), "ly": pv(0.8, 1.6)})
+                nm_ = {"op": "newmesh", "nx": rng.choice([2, 2, 3]), "ny": rng.choice([2, 2, 3]), "lx": pv(0.8, 1.6), "ly": pv(0.8, 1.6)}
+                if rng.random() < 0.3:
+                    nm_["elem"] = "TRI3"
+                ops.append(nm_)
                 nmesh += 1
                 ops.append({"op": "setmesh", "i": i, "m": nmesh - 1})
                 s["mesh"] = nmesh - 1
@@ -416,6 +429,37 @@ def systematic_cases():
         for nm in names:
             v = newval[nm] if typ != "Beam" else 1.1e11
             out.append({"type": typ, "opts": {}, "ops": pre + [{"op": "param", "sub": typ == "Beam", "name": nm, "value": v}]})
+    # two invalidating ops IN A ROW (no assembly in between), both orders, every pair of mutator kinds
+    def muts(typ):
+        m = {"param": {"op": "param", "sub": typ in ("Beam", "PhaseField"), "name": {"Thermal": "k", "HyperElastic": "K"}.get(typ, "E"),
+                       "value": {"Thermal": 6.5, "HyperElastic": 3.3e4, "Beam": 1.3e11}.get(typ, 91234.0)},
+             "rho": {"op": "rho", "i": 0, "value": 333.0},
+             "coord": mv("CoordSet") if typ != "Beam" else {"op": "move", "m": 0, "kind": "CoordSet", "args": [1.2, 1.2]},
+             "rotate": mv("Rotate") if typ != "Beam" else mv("Translate")}
+        if typ == "Elastic":
+            m["ray"] = {"op": "ray", "i": 0, "coefM": 0.3, "coefK": 2e-4}
+        if typ != "Beam":
+            m["setmesh"] = [SAME_NN, {"op": "setmesh", "i": 0, "m": 1}]
+        return m
+    pres = {"Elastic": [NS, DIR2, LOAD, {"op": "algo", "i": 0, "kind": "hyperbolic", "dt": 0.05}, SOLVE],
+            "Thermal": TH_PRE + [SOLVE], "HyperElastic": HYP_PRE + [SOLVE], "PhaseField": PF_PRE + [SOLVE], "Beam": BEAM_PRE + [SOLVE]}
+    for typ, pre in pres.items():
+        m = muts(typ)
+        for a in m:
+            for b in m:
+                if a == b or a == "setmesh":
+                    continue   # (after a mesh replacement the other mutators act on a blank simulation: covered by b == setmesh)
+                ops = list(pre)
+                for x in (m[a], m[b]):
+                    ops += x if isinstance(x, list) else [x]
+                out.append({"type": typ, "opts": {"split": "Amor"} if typ == "PhaseField" else {}, "ops": ops})
+    # mesh replaced by a DIFFERENT mesh with the SAME node count (scaled / other element type), state observed
+    # before the next solve and after a time step
+    for typ, pre in pres.items():
+        if typ == "Beam":
+            continue
+        for nm in (SAME_NN, SAME_NN_TRI):
+            out.append({"type": typ, "opts": {}, "ops": list(pre) + [SOLVE, nm, {"op": "setmesh", "i": 0, "m": 1}]})
     return out
 
 
